@@ -2261,21 +2261,47 @@ impl PublicKey {
                 let i = (ii_start + i0) as u64;
                 let iU = U * i;
                 let jIU = U.xdouble(nI as u32) * j;
+                // The rebuilt scalar is computed modulo L; if s1 = +2^m and
+                // s0 >= L - 2^252 then it wrapped around, and the result
+                // (though a valid signature) is not a completion of the
+                // received bits: it must not be returned.
                 if V.equals(iU + jIU) != 0 {
                     let s1 = (i as i64) + ((j as i64) << nI);
-                    return Some(Self::make_sig(R_enc,
-                        &(s0 + T251 + Tn * Scalar::from_i64(s1))));
+                    let sig3 = Self::make_sig(R_enc,
+                        &(s0 + T251 + Tn * Scalar::from_i64(s1)));
+                    if Self::is_completion(&sig3, &sig2, rm) {
+                        return Some(sig3);
+                    }
                 }
                 if V.equals(iU - jIU) != 0 {
                     let s1 = (i as i64) - ((j as i64) << nI);
-                    return Some(Self::make_sig(R_enc,
-                        &(s0 + T251 + Tn * Scalar::from_i64(s1))));
+                    let sig3 = Self::make_sig(R_enc,
+                        &(s0 + T251 + Tn * Scalar::from_i64(s1)));
+                    if Self::is_completion(&sig3, &sig2, rm) {
+                        return Some(sig3);
+                    }
                 }
             }
         }
 
         // We got no match; the signature is invalid.
         return None;
+    }
+
+    /// Checks that the rebuilt signature `sig` agrees with the received
+    /// bits `sig2` (in which the last `rm` bits were cleared) on all
+    /// the bits that were not ignored.
+    fn is_completion(sig: &[u8; 64], sig2: &[u8; 64], rm: usize) -> bool {
+        let n = (519 - rm) >> 3;
+        let mut d = 0u8;
+        for k in 0..n {
+            let mut x = sig[k] ^ sig2[k];
+            if k == n - 1 && (rm & 7) != 0 {
+                x &= 0xFFu8 >> (rm & 7);
+            }
+            d |= x;
+        }
+        d == 0
     }
 
     /// Rebuilds a signature value from the encoded R point (exactly
